@@ -35,6 +35,11 @@ def one(rec, hub, seed, tier, i):
         cfg["n_pts"] = min(cfg["n_pts"], 2 if (len(cfg["items"]) > 300 or len(cfg["shape"]) > 1 and cfg["shape"][1] > 100) else 3)  # keeps the reference affordable
     if i % 7 == 3:
         cfg["param_form"] = "ndarray" if (i // 7) % 2 else "list"
+        if cfg["param_form"] == "ndarray" and (i // 14) % 3:
+            # the user's parameter arrays in half or single precision (read from a compact file): the model works with exactly the
+            # numbers those arrays hold, at full precision
+            cfg["prm_dtype"] = [None, np.float16, np.float32][(i // 14) % 3]
+            cfg["truth"] = {k_: np.array(np.array(v_, dtype=cfg["prm_dtype"]), dtype=float) for k_, v_ in cfg["truth"].items()}
     late = [] if i % 4 == 1 else None
     lm = dsm.build_lm(fd, cfg, late=late)
     if i % 4 in (1, 2):
